@@ -79,6 +79,11 @@ impl ProvisionSharedState {
                 match action {
                     ProvisionAction::UpdateState { state, response } => {
                         provision_state |= state;
+                        // keep the finished time_tick consistent with the flags within the same
+                        // message, a concurrent reset must not be overwritten by a stale 'all ready'
+                        if provision_state.contains(ProvisionFlags::ALL_READY) {
+                            provision_finished_time_tick = misc_helpers::get_date_time_unix_nano();
+                        }
                         if let Err(new_state) = response.send(provision_state.clone()) {
                             logger::write_warning(format!(
                                 "Failed to send response to ProvisionAction::UpdateState with new state '{:?}'",
@@ -88,6 +93,12 @@ impl ProvisionSharedState {
                     }
                     ProvisionAction::ResetState { state, response } => {
                         provision_state &= !state;
+                        provision_finished_time_tick =
+                            if provision_state.contains(ProvisionFlags::ALL_READY) {
+                                misc_helpers::get_date_time_unix_nano()
+                            } else {
+                                0
+                            };
                         if let Err(new_state) = response.send(provision_state.clone()) {
                             logger::write_warning(format!(
                                 "Failed to send response to ProvisionAction::ResetState with new state '{:?}'",
